@@ -8,10 +8,10 @@ mkdir -p /tmp/sweep_ev && cp evidence/*.json /tmp/sweep_ev/
 ./check C01 --replay replays/C01/fixed-kf-c01-02.json > /dev/null 2>&1   # builds once
 for seed in $SEEDS; do
   for id in $(python3 -c "import json; print(' '.join(c['property_id'] for c in json.load(open('MANIFEST.json'))['checks']))"); do
-    VERIF_SEED=$seed nice -n 10 /verif/target/debug/gverif run $id quick > /tmp/sweep_$id_$seed.log 2>&1
+    VERIF_SEED=$seed nice -n 10 /verif/target/debug/gverif run $id quick > /tmp/sweep_${id}_${seed}.log 2>&1
     rc=$?
-    echo "seed=$seed $id exit=$rc $(grep -a "$id quick:" /tmp/sweep_$id_$seed.log | tail -1)"
-    if [ $rc -ne 0 ]; then grep -a -E "VIOLATION|INCONCLUSIVE" /tmp/sweep_$id_$seed.log | head -5; fi
+    echo "seed=$seed $id exit=$rc $(grep -a "$id quick:" /tmp/sweep_${id}_${seed}.log | tail -1)"
+    if [ $rc -ne 0 ]; then grep -a -E "VIOLATION|INCONCLUSIVE" /tmp/sweep_${id}_${seed}.log | head -5; fi
   done
 done
 cp /tmp/sweep_ev/*.json evidence/
